@@ -97,7 +97,7 @@ class FnLower:
         sig = L.signature(fn)
         self.rett = sig.split(' f_')[0]
         self.noexcept = is_noexcept(fn['type']['qualType']) or kind == 'CXXDestructorDecl'
-        self.ret_ref = kind not in ('CXXConstructorDecl', 'CXXDestructorDecl') and L.is_ref(ret_of(fn['type']['qualType']))
+        self.ret_ref = kind not in ('CXXConstructorDecl', 'CXXDestructorDecl') and L.is_ref(L.ret_type_str(fn))
         for p in fn.get('inner', []):
             if p.get('kind') == 'ParmVarDecl' and L.is_ref(p['type']): self.refs.add(p['id'])
         self.scopes = [Scope('fn')]
@@ -588,6 +588,8 @@ class FnLower:
                 return
             if t[0] == 'builtin' and len(args) <= 1:
                 self.emit('*(%s) = %s;' % (target, self.rv(args[0]) if args else '0')); return
+            if t[0] == 'initlist' and not args:
+                self.emit('(%s)->_e = 0; /* empty std::initializer_list */' % target); return
             self.unsupported('construct %s (%s)' % (tystr, t[0]))
         if k == 'InitListExpr':
             items = e.get('inner', [])
@@ -821,7 +823,13 @@ class FnLower:
 
     def external_call(self, e, name, rd, decl, args, ret_t, returns_ref, want_value):
         L = self.L
-        if name in ('move', 'forward', 'addressof', 'ref', 'cref', 'as_const') and len(args) == 1:
+        if name in ('ref', 'cref') and len(args) == 1 and ret_t is not None and ret_t[0] == 'refw':
+            t = self.tmp(); self.emit('%s %s;' % (L.ctype_of(ret_t), t))
+            at = L.deref_t(args[0]['type'])
+            if at[0] == 'refw': self.emit('%s = %s;' % (t, self.rv(args[0])))
+            else: self.emit('%s.p = %s;' % (t, self.addr(args[0])))
+            return t, False
+        if name in ('move', 'forward', 'addressof', 'as_const') and len(args) == 1:
             a = args[0]
             if name == 'addressof': return self.addr(a), False
             if self.is_glvalue(a): return self.addr(a), True
@@ -981,6 +989,8 @@ class FnLower:
         return d == 0
 
     def vname(self, rd):
+        d = self.idx.by_id.get(rd['id'])
+        if d is not None and d.get('_vp_name'): return d['_vp_name']
         return self.renames.get(rd['id'], rd.get('name') or ('_p' + rd['id'][-5:]))
 
     def lv(self, e):
